@@ -14,7 +14,7 @@ import (
 
 // schedulesForC09 runs the leak ledger over a sample of the duplicate-key schedules.
 func schedulesForC09(t *testing.T, r *ev.Run) {
-	exploreSchedules(t, r, "C09", func(c schedCell) bool { return c.nproc == 2 }, ev.Pick(60, 3000), false)
+	exploreSchedules(t, r, "C09", func(c schedCell) bool { return c.nproc == 2 && c.sample == 0 }, ev.Pick(60, 3000), false)
 }
 
 // sessionCacheLedger runs the session-cache programs (get/use/close/advance/factory close with several holders of
